@@ -9,7 +9,9 @@
     Nusselt branch (Model/Nusselt.v, Proofs/NusseltProofs.v): the model of [nusselt_analog] /
     [nusselt_integration] is invariant under a common translation (6a) and under uniform scaling by
     s > 0 (6b); the sample grid of a 4-vertex patch consists of the npointsx*npointsz cell centres (6c);
-    the assembly with both branches computed keeps the exact zeros and the i<j reciprocity (6d).
+    the assembly with both branches computed keeps the exact zeros and the i<j reciprocity (6d);
+    the composed room model ([Model/Full.v]) computes its whole form-factor matrix itself -- it is
+    [patch2patch_ff_full] of the room's own tiling (6e).
 
     NOT carried by any theorem (see NOT_CARRIED in harness/props/C05.py): F <= 1, the 2.5 % closure
     of a closed room; for the Nusselt branch: accuracy, 0 <= F <= 1, reciprocity of the two-sided
@@ -17,7 +19,7 @@
 From Coq Require Import List Arith Bool Permutation.
 Import ListNotations.
 From SV Require Import Base.Ops Base.Arr Base.Sums Model.Vec3 Model.Exchange Model.Scene Model.Stokes
-  Model.Nusselt Spec.Isometry Proofs.FieldFacts Proofs.BooleExact Proofs.StokesAssembly Proofs.StokesSum
+  Model.Nusselt Model.Tiling Model.PtSolution Model.Full Spec.Isometry Proofs.FieldFacts Proofs.BooleExact Proofs.StokesAssembly Proofs.StokesSum
   Proofs.StokesSimilarity Proofs.NusseltProofs.
 
 (** (1) a pair that is not in the visible list has an exactly zero entry in the assembled
@@ -304,3 +306,43 @@ Proof.
               (full_reciprocity sc thres cut thr_seg thr_dot thr_lag pts normals i j HF)).
 Qed.
 Print Assumptions C05_full_assembly.
+
+(** (6e) C05_room_form_factors_computed -- the composed end-to-end model.  For EVERY room description
+    [rm] (wall polygons, normals, patch size, tolerances; NO form-factor value is a field of [room]):
+    the form-factor matrix of the scene the model builds, [s_F (room_scene rm)], is
+    [patch2patch_ff_full] evaluated on the room's own tiling ([rm_patch_pts rm] = the vertex lists of
+    [create_patches] of every wall, concatenated), the patch normals, the [_polygon_area] areas and
+    the visible-pair list the model's own visibility scan produced; a visible pair i < j holds the
+    model's Nusselt value ([nusselt_ff], nsamples = 64) when the two patches touch
+    ([_coincidence_check]) and the Stokes contour integral otherwise; a pair that is not visible has an
+    exactly zero entry, zero full form factor and zero transfer factors; and the lower triangle follows
+    from the upper one by the area ratio, area_i F_ij = area_j F_ji. *)
+Theorem C05_room_form_factors_computed {T} {O : Ops T} {RL : RingLaws T} {OL : OrderLaws T}
+    {FL : FieldLaws T} (rm : @room T) (i j : nat) :
+  let sc := room_scene rm in
+  s_F sc = patch2patch_ff_full (rm_thres rm) (rm_cut rm) (rm_thr_seg rm) (rm_thr_dot rm) (rm_thr_lag rm)
+             (rm_patch_pts rm) (pr_normals (rm_processed rm)) (s_areas sc) (vis_pairs sc) /\
+  (i < j -> j < rm_np rm -> vis_sym sc i j = true ->
+     get2 (s_F sc) i j =
+     if coincidence_check (rm_thres rm) (nth j (rm_patch_pts rm) []) (nth i (rm_patch_pts rm) [])
+     then nusselt_ff (rm_thr_seg rm) (rm_thr_dot rm) (rm_thr_lag rm)
+            (nth i (rm_patch_pts rm) []) (nthv (pr_normals (rm_processed rm)) i)
+            (nth j (rm_patch_pts rm) []) (nthv (pr_normals (rm_processed rm)) j)
+     else stokes_integration (rm_cut rm) (nth i (rm_patch_pts rm) []) (nth j (rm_patch_pts rm) [])
+            (area sc i)) /\
+  (area sc i <> 0%T -> vis_sym sc i j = false ->
+     (if i <? j then get2 (s_F sc) i j else get2 (s_F sc) j i) = 0%T /\
+     ff_full sc i j = 0%T /\
+     forall d b, get4 (tilde sc) i j d b = 0%T) /\
+  (i <> j -> area sc i <> 0%T -> area sc j <> 0%T ->
+     (area sc i * ff_full sc i j)%T = (area sc j * ff_full sc j i)%T).
+Proof. exact (room_form_factors_computed rm i j). Qed.
+Print Assumptions C05_room_form_factors_computed.
+
+(** ... where the geometry the matrix is computed from is the tiling of the walls *)
+Theorem C05_room_geometry_is_tiling {T} {O : Ops T} (rm : @room T) :
+  rm_patch_pts rm = map verts (concat (map (fun q => create_patches q (rm_patch_size rm)) (rm_walls rm))) /\
+  pr_normals (rm_processed rm) = map (fun w => nthv (rm_normals rm) w) (pr_wall_ids (rm_processed rm)) /\
+  s_areas (room_scene rm) = map poly_area (rm_patch_pts rm).
+Proof. exact (room_geometry_is_tiling rm). Qed.
+Print Assumptions C05_room_geometry_is_tiling.
